@@ -69,6 +69,13 @@ def gen(tier, seed):
               "    ok = s.D.value == 0 and s.density.value == 0 and s.chstt == False and s.units_system == SYS['B']",
               "    ok = ok and r.kf.value == 0 and r.kr.value == 0 and r.label is None and r.units_system == SYS['B']",
               "    ok = ok and (g.w, g.h, g.d) == (1, 1, 1) and list(g.cell_env) == [0] and g.cell_vol.value == 1 and g.get_boundary_conditions() == {'x': 'reflecting', 'y': 'reflecting', 'z': 'reflecting'}",
+              "    # the default volume is 1 IN THE UNITS OF THE SPACE (own declaration, or inherited), like an explicit \"cell_volume\": 1",
+              "    for key in 'BCG':",
+              "        for own in (0, 1):",
+              "            dd = {'w': 2, 'units': {k: SYS[key][k] for k in ('space', 'time', 'quantity')}} if own else {'w': 2}",
+              "            g0, g1 = rdgridspace_from_dict(dict(dd), SYS[key]), rdgridspace_from_dict(dict(dd, cell_volume=1), SYS[key])",
+              "            ok = ok and si_eq(g0.cell_vol, g1.cell_vol) and si_eq(g0.cell_vol, UnitValue(1, Units(SYS[key], UnitsDimensions(3, 0, 0)))) and rdgridspace_to_dict(g0) == rdgridspace_to_dict(g1)",
+              "            ok = ok and si_eq(RDGridSpace(w=2, units_system=SYS[key]).cell_vol, g1.cell_vol)",
               "    sc = rdscript_from_dict({'system': rdsystem_to_dict(mk_system(0, 0, 0)), 't_sample': [0, 2.0]})",
               "    ok = ok and sc.time_step.value == 1e-3 and sc.t_max.value == 2.0 and sc.sampling_policy == 'on_t_sample' and sc.sampling_interval.value == 1 and sc.init_state_processing == 'auto'",
               "    return ok", ""])
